@@ -92,3 +92,12 @@ Proof.
     apply orb_true_iff in T. destruct T as [T|T]; [left; apply N.eqb_eq; exact T|right; apply N.leb_le; exact T]. }
   destruct (N.eqb_spec (n mod 30) 1) as [E1|E1]; lia.
 Qed.
+
+(** the end masks of Erat::sieveSegment / sieveLastSegment: unsetSmaller[r] keeps exactly the bits of the numbers
+    base + bv[b] with bv[b] >= r, unsetLarger[r] those with bv[b] <= r (r = byteRemainder of start resp. stop, 0..36) *)
+Lemma end_masks_ok :
+  length unsetSmaller = 37%nat /\ length unsetLarger = 37%nat /\
+  forallb (fun r => forallb (fun b =>
+      Bool.eqb (N.testbit (nthN' unsetSmaller r) (N.of_nat b)) (r <=? nth b bv 0) &&
+      Bool.eqb (N.testbit (nthN' unsetLarger r) (N.of_nat b)) (nth b bv 0 <=? r)) (seq 0 8)) (Nseq 37) = true.
+Proof. vm_compute. repeat split; reflexivity. Qed.
